@@ -43,6 +43,8 @@ def run(ck, fb):
     r04f(ck, fb)
     r04g(ck, fb)
     r04h(ck, fb)
+    from rules.c02 import r02h
+    r02h(ck, fb, 'R04i')
 
 
 def r04a(ck, fb):
